@@ -359,6 +359,57 @@ def r15_8(chk, P):
                      context='a one-step set-up call that failed has cleared the info; this request then dereferences NULL')
 
 
+def r15_9(chk, P):
+    chk.rule('R15.9', 'the stack the analysis path needs does not grow with the amount of audio submitted: no alloca reachable from '
+             'vorbis_analysis_wrote / vorbis_analysis_blockout / vorbis_analysis has a size that depends (directly or through '
+             'single-definition locals) on a field of the dsp state that vorbis_analysis_wrote advances by its caller-supplied '
+             'count (discovered from its stores), or on that count.  One vorbis_analysis_buffer/wrote call may submit any number '
+             'of samples; block-sized scratch is bounded by the block size, a copy of the whole pending buffer is not')
+    W = P.need('vorbis_analysis_wrote')
+    cnt = W.params[1]['id'] if len(W.params) > 1 else None
+    grown = set()
+    for e in W.nodes('assign'):
+        nd = W.ex[e]
+        l = W.ex[W.strip_casts(nd['c'][0])]
+        if l['k'] == 'member' and nd['op'] in ('+=', '=') and any(W.ex[q]['k'] == 'ref' and W.ex[q]['decl'].get('id') == cnt for q in W.walk(nd['c'][1])):
+            grown.add((l.get('record'), l['field']))
+    chk.require(grown, 'vorbis_analysis_wrote: no field advanced by the sample count found')
+    roots = [P.key(P.need(n_)) for n_ in ('vorbis_analysis_wrote', 'vorbis_analysis_blockout', 'vorbis_analysis') if P.get(n_) is not None]
+    n = 0
+    for k in sorted(P.reachable(roots)):
+        F = P.fn.get(k)
+        if F is None:
+            continue
+        defs = None
+        for c in F.calls():
+            if F.ex[c]['callee'].get('d') not in ('__builtin_alloca', 'alloca'):
+                continue
+            if defs is None:
+                defs = common.single_defs(F)
+
+            def tainted(e, depth=0):
+                for q in F.walk(e):
+                    nd = F.ex[q]
+                    if nd['k'] == 'member' and (nd.get('record'), nd['field']) in grown:
+                        return F.s(q)
+                    if nd['k'] == 'ref' and nd['decl'].get('kind') == 'param' and F is W and nd['decl'].get('id') == cnt:
+                        return F.s(q)
+                    if nd['k'] == 'ref' and nd['decl'].get('kind') == 'var' and depth < 3:
+                        d = defs.get(nd['decl'].get('id'))
+                        if d is not None:
+                            t = tainted(d, depth + 1)
+                            if t:
+                                return t
+                return None
+            t = tainted(F.ex[c]['c'][0])
+            n += 1
+            chk.ob('R15.9', F.name, f'alloca-size-independent-of-input-amount@{F.loc(c)}', t is None, F.where(c),
+                   f'{F.s(c)[:70]}: the size does not depend on {sorted(f for _, f in grown)}' if t is None else
+                   f'{F.s(c)[:70]}: the size depends on {t}, which grows with the number of samples the application submits in one '
+                   'call: a large submission overflows the stack')
+    return n
+
+
 def r15_7(chk, P):
     chk.rule('R15.7', 'a refused control request changes nothing: on every path of vorbis_encode_ctl that ends in a negative return '
              'code no field of the staged set-up (highlevel_encode_setup and its per-block records) has been stored '
@@ -388,6 +439,8 @@ def run(chk, P):
     chk.floor('R15.7', 3)
     r15_8(chk, P)
     chk.floor('R15.8', 2)
+    r15_9(chk, P)
+    chk.floor('R15.9', 10)
     r15_2(chk, P)
     chk.floor('R15.2', 8)
     r15_3(chk, P)
